@@ -855,14 +855,15 @@ def export_obj(
 
             # add the first vertex key and convert the array
         # add the vertices
-        export = deque(
-            [
+        export = deque([])
+        if len(v_blob) > 0:
+            # a bare `v` without coordinates is not a vertex
+            export.append(
                 "v "
                 + util.array_to_string(
                     v_blob, col_delim=" ", row_delim="\nv ", digits=digits
                 )
-            ]
-        )
+            )
 
         # if include_normals is None then
         # only include if they're already stored
@@ -921,7 +922,7 @@ def export_obj(
         # the format for a single vertex reference of a face
         face_format = face_formats[tuple(face_type)]
         # add the exported faces to the export if available
-        if hasattr(current, "faces"):
+        if hasattr(current, "faces") and len(current.faces) > 0:
             export.append(
                 "f "
                 + util.array_to_string(
